@@ -4,16 +4,19 @@
    creation is the two steps OSnap / OFinish so that anything can run in between).  [reachable s] =
    s is the result of ANY well-formed history (model/OwnSpec.v): any number of environments, any
    interleaving of create (serialised or overlapped) / control / destroy / cleanup / kill requests
-   and task deaths, any oracle values (launch outcomes, refusals, failing stage of a creation). *)
+   and task deaths, any oracle values (launch outcomes, refusals, failing stage of a creation), executor / agent failures
+   (OFail: the affected tasks keep their parent role but are not locked any more). *)
 From Verif Require Import Common Ownership Teardown OwnSpec OwnInv_proofs OwnThm_proofs.
 Open Scope N_scope.
 
 (* --- "control, release and kill operations issued for one environment never affect tasks owned by
-       another": whatever request runs in whatever reachable state, a task owned by ANOTHER
-       environment is in the roster afterwards exactly as it was (same owner, status, state) ... *)
+       another": whatever request runs in whatever reachable state, a task owned (= locked: parent role
+       set and agent / executor ids intact, task.go:isLocked) by ANOTHER environment is in the roster
+       afterwards exactly as it was (same owner, status, state) ... *)
 Theorem C04_frame_tasks : forall s s' o u,
   reachable s -> wf_op s o = true -> is_request o = true -> step s o = (s', u) ->
-  forall t e', In t (s_roster s) -> t_owner t = Some e' -> op_env o <> Some e' -> In t (s_roster s').
+  forall t e', In t (s_roster s) -> t_owner t = Some e' -> t_idok t = true -> op_env o <> Some e' ->
+               In t (s_roster s').
 Proof. exact frame_tasks. Qed.
 Print Assumptions C04_frame_tasks.
 
@@ -21,7 +24,8 @@ Print Assumptions C04_frame_tasks.
 Theorem C04_frame_kills : forall s s' o u,
   reachable s -> wf_op s o = true -> is_request o = true -> step s o = (s', u) ->
   forall k, In k (o_kills u) ->
-  forall t e', In t (s_roster s) -> t_id t = k -> t_owner t = Some e' -> op_env o = Some e'.
+  forall t e', In t (s_roster s) -> t_id t = k -> t_owner t = Some e' -> t_idok t = true ->
+               op_env o = Some e'.
 Proof. exact frame_kills. Qed.
 Print Assumptions C04_frame_kills.
 
@@ -29,7 +33,8 @@ Print Assumptions C04_frame_kills.
 Theorem C04_frame_commands : forall s s' o u,
   reachable s -> wf_op s o = true -> is_request o = true -> step s o = (s', u) ->
   forall k, In k (o_cmds u) ->
-  forall t e', In t (s_roster s) -> t_id t = k -> t_owner t = Some e' -> op_env o = Some e'.
+  forall t e', In t (s_roster s) -> t_id t = k -> t_owner t = Some e' -> t_idok t = true ->
+               op_env o = Some e'.
 Proof. exact frame_cmds. Qed.
 Print Assumptions C04_frame_commands.
 
@@ -98,9 +103,9 @@ Print Assumptions C04_detector_race_refuted.
 Example C04_nonvacuous :
   let c0 := mkSpec [0] 0 [mkRole RPlain true 0 false; mkRole RPlain false 0 false] in
   let c1 := mkSpec [1; 2] 0 [mkRole RPlain true 0 false; mkRole (RHookTask false 3%Z) false 0 false] in
-  let ops := [OCreate 0 c0; OCreate 1 c1; OControl 0 2 false] in
+  let ops := [OCreate 0 c0; OCreate 1 c1; OControl 0 2 false; OFail [(0, 1)]] in
   valid_hist st0 ops = true /\ forallb serial_op ops = true /\
   length (s_envs (run st0 ops)) = 2%nat /\ length (s_roster (run st0 ops)) = 4%nat /\
-  forallb is_locked (s_roster (run st0 ops)) = true /\
+  length (filter is_locked (s_roster (run st0 ops))) = 3%nat /\
   wf_op (run st0 ops) (ODestroy 1 false false false false) = true.
 Proof. vm_compute. repeat split; reflexivity. Qed.
